@@ -30,9 +30,6 @@ type cmpTable struct {
 // (recv[idx].F, len(recv[idx].F), recv[idx]), returns its canonical form with the
 // index replaced by "#".
 func (w *World) elemComponent(fn *ssa.Function, v ssa.Value) (string, int) {
-	if len(fn.Params) < 3 {
-		return "", -1
-	}
 	s := w.Canon(v)
 	hasI := strings.Contains(s, "recv[p0]")
 	hasJ := strings.Contains(s, "recv[p1]")
@@ -78,23 +75,39 @@ func (w *World) comparatorTable(fn *ssa.Function) *cmpTable {
 		}
 		sites[v] = cmpSite{ka, ia == 0}
 	}
-	for _, b := range fn.Blocks {
-		for _, in := range b.Instrs {
-			switch x := in.(type) {
-			case *ssa.BinOp:
-				switch x.Op {
-				case token.LSS, token.LEQ, token.GTR, token.GEQ, token.EQL, token.NEQ:
-					add(x, x.X, x.Y, false)
-				}
-			case *ssa.Call:
-				if w.callIs(x.Common(), fref{"bytes", "", "Compare"}) || w.callIs(x.Common(), fref{"types/bytes", "", "Compare"}) || w.callIs(x.Common(), fref{"bytes", "", "Equal"}) {
-					if len(x.Common().Args) == 2 {
-						add(x, x.Common().Args[0], x.Common().Args[1], true)
+	// the comparisons may sit in pure helpers the comparator calls with its elements
+	var discover func(f *ssa.Function, depth int)
+	discover = func(f *ssa.Function, depth int) {
+		for _, b := range f.Blocks {
+			for _, in := range b.Instrs {
+				switch x := in.(type) {
+				case *ssa.BinOp:
+					switch x.Op {
+					case token.LSS, token.LEQ, token.GTR, token.GEQ, token.EQL, token.NEQ:
+						add(x, x.X, x.Y, false)
+					}
+				case *ssa.Call:
+					if w.callIs(x.Common(), fref{"bytes", "", "Compare"}) || w.callIs(x.Common(), fref{"types/bytes", "", "Compare"}) || w.callIs(x.Common(), fref{"bytes", "", "Equal"}) {
+						if len(x.Common().Args) == 2 {
+							add(x, x.Common().Args[0], x.Common().Args[1], true)
+						}
+						continue
+					}
+					cal := x.Common().StaticCallee()
+					if cal != nil && depth < 2 && cal != f && w.pureFn(cal, 0) && len(cal.Params) == len(x.Common().Args) {
+						env := map[*ssa.Parameter]string{}
+						for j, p := range cal.Params {
+							env[p] = w.Canon(x.Common().Args[j])
+						}
+						w.inlineEnv = append(w.inlineEnv, env)
+						discover(cal, depth+1)
+						w.inlineEnv = w.inlineEnv[:len(w.inlineEnv)-1]
 					}
 				}
 			}
 		}
 	}
+	discover(fn, 0)
 	if len(t.Keys) == 0 || len(t.Keys) > 5 {
 		t.Bad = fmt.Sprintf("%d compared components found", len(t.Keys))
 		return t
